@@ -66,6 +66,8 @@ type Exec struct {
 	ghostInit bool
 
 	usedContracts map[string]bool
+	coverSeen     map[string]int
+	trackedChans  map[string]bool // channel terms made for a local variable listed in the contract's tokens clause
 	usedRegex     map[string]bool
 	blocking      []blockingOp
 	spawned       []*ssa.Function
@@ -660,6 +662,23 @@ func (ex *Exec) step(st *State, fr *Frame, instr ssa.Instruction) {
 		st.setRegion("G!sentlen", arr("Int", "Int"), store(st.region("G!sentlen", arr("Int", "Int")), r, "0"))
 		st.setRegion("G!recvlen", arr("Int", "Int"), store(st.region("G!recvlen", arr("Int", "Int")), r, "0"))
 		st.setRegion("G!closed", arr("Int", "Bool"), store(st.region("G!closed", arr("Int", "Bool")), r, "false"))
+		st.setRegion("G!tokens", arr("Int", "Int"), store(st.region("G!tokens", arr("Int", "Int")), r, "0"))
+		if ex.contract != nil && len(ex.contract.tokens) > 0 && in.Parent() == ex.root {
+			for _, ref := range *in.Referrers() {
+				if sto, ok := ref.(*ssa.Store); ok {
+					if al, ok := sto.Addr.(*ssa.Alloc); ok {
+						for _, tn := range ex.contract.tokens {
+							if al.Comment == tn {
+								if ex.trackedChans == nil {
+									ex.trackedChans = map[string]bool{}
+								}
+								ex.trackedChans[r] = true
+							}
+						}
+					}
+				}
+			}
+		}
 		fr.vals[in] = term(r, in.Type())
 	case *ssa.MapUpdate:
 		ex.mapUpdate(st, in)
@@ -876,6 +895,11 @@ func (ex *Exec) storePtr(st *State, p Val, v Val, instr ssa.Instruction) {
 			reg, sort := sliceRegion(se.et)
 			a := st.region(reg, sort)
 			st.setRegion(reg, sort, store(a, p.Base, store(sel(a, p.Base), se.idx, ex.asTerm(v))))
+			if isByteT(se.et) {
+				// the ghost string content of a byte slice is lost once an element is overwritten
+				bs := st.region("G!bytestr", arr("Int", "String"))
+				st.setRegion("G!bytestr", arr("Int", "String"), store(bs, p.Base, ex.fresh("bytes_after_store", "String")))
+			}
 			for k := range st.known {
 				if strings.HasPrefix(k, reg+"|"+p.Base+"|") {
 					delete(st.known, k)
@@ -1195,10 +1219,18 @@ func (ex *Exec) convert(st *State, in *ssa.Convert) Val {
 		x.Typ = to
 		return x
 	case x.K == KSlice && ts == "String":
-		// string(bytes): opaque
+		// string(bytes): the ghost content of the backing array, cut to the slice's window
+		if et := from.Underlying().(*types.Slice).Elem(); isByteT(et) {
+			c := sel(st.region("G!bytestr", arr("Int", "String")), x.Fs[0].T)
+			return term("(str.substr "+c+" "+x.Fs[1].T+" "+x.Fs[2].T+")", to)
+		}
 		return st.freshVal("str_of_bytes", to)
 	case fs == "String" && isSliceT(to):
 		id := st.allocRef("bytes")
+		if et := to.Underlying().(*types.Slice).Elem(); isByteT(et) {
+			bs := st.region("G!bytestr", arr("Int", "String"))
+			st.setRegion("G!bytestr", arr("Int", "String"), store(bs, id, x.T))
+		}
 		return Val{K: KSlice, Typ: to, Fs: []Val{term(id, tInt), term("0", tInt), term("(str.len "+x.T+")", tInt)}}
 	case fs == "Int" && ts == "Int":
 		tb, ok := to.Underlying().(*types.Basic)
@@ -1305,6 +1337,11 @@ func (ex *Exec) typeAssert(st *State, in *ssa.TypeAssert) Val {
 
 // ---------------------------------------------------------------------------------------------
 // Slices, strings, arrays
+
+func isByteT(t types.Type) bool {
+	b, ok := t.Underlying().(*types.Basic)
+	return ok && b.Kind() == types.Uint8
+}
 
 func sliceRegion(et types.Type) (string, string) {
 	s := scalarSort(et)
